@@ -107,9 +107,15 @@ def call_parens(ses, rep):
     is_tbl = z3.Or(din == FA("TableConstructor"), single_tbl)
     omit_s = z3.Or(ncp.t, dcp == CP("None"), dcp == CP("NoSingleString"))
     omit_t = z3.Or(ncp.t, dcp == CP("None"), dcp == CP("NoSingleTable"))
+    # documented exception (repair F7): parentheses that carry comments of their own are kept, with the comments
+    commented = [v.t for k, v in ex.havoc_memo.items() if k[0].endswith("Iterator>::any") and isinstance(v, Sym) and z3.is_bool(v.t)
+                 and any(isinstance(a, tuple) and a and a[0] == "fn" and "trivia_is_comment" in str(a[1]) for a in k[2])]
+    keeps_comments = z3.And(din == FA("Parentheses"), z3.Or(*commented)) if commented else z3.BoolVal(False)
+    rep.bounds["call_parens_comment_guards"] = len(commented)
     want = z3.If(dcp == CP("Input"), din,
+           z3.If(keeps_comments, FA("Parentheses"),
            z3.If(z3.And(is_str, omit_s, z3.Not(obscure)), FA("String"),
-           z3.If(z3.And(is_tbl, omit_t, z3.Not(obscure)), FA("TableConstructor"), FA("Parentheses"))))
+           z3.If(z3.And(is_tbl, omit_t, z3.Not(obscure)), FA("TableConstructor"), FA("Parentheses")))))
     base = ex.all_discr_ranges() + [z3.ULT(din, z3.BitVecVal(3, 64)), z3.ULT(dcp, z3.BitVecVal(5, 64)), z3.ULT(dnx, z3.BitVecVal(2, 64)),
                                     z3.Implies(nargs != 0, ex.discr(None, first) == 1)]
     n = 0
